@@ -366,6 +366,13 @@ typedef struct functab_t {
 
 #define BADFREC(r) ((r) == NULL || (r)->refcount == 0)
 
+/* Resolve an ID only if it is of the expected kind.  HAatom_object() returns
+   the object of ANY atom; handing an access ID to a routine that expects a
+   file ID (or the reverse) must fail instead of reading one kind of record as
+   the other. */
+#define HIfid2rec(id) ((HAatom_group(id) == FIDGROUP) ? (filerec_t *)HAatom_object(id) : (filerec_t *)NULL)
+#define HIaid2rec(id) ((HAatom_group(id) == AIDGROUP) ? (accrec_t *)HAatom_object(id) : (accrec_t *)NULL)
+
 /* --------------------------- Special Elements --------------------------- */
 /* The HDF tag space is divided as follows based on the 2 highest bits:
    00: Library reserved ordinary tags
